@@ -1,7 +1,7 @@
 (* C11 — Rejected transactions leave no trace. Statements only. *)
 From Coq Require Import List ZArith NArith Bool.
 From PM Require Import Base.Bytes Store.KV Store.MergeProofs Num.IntModel Num.DecModel Num.DecProofs
-  App.Model App.BankProofs App.TxProofs App.KeyProofs App.Examples.
+  App.Model App.BankProofs App.TxProofs App.KeyTypes App.KeyProofs App.Examples.
 Import ListNotations.
 Local Open Scope Z_scope.
 
@@ -15,6 +15,20 @@ Proof. exact (handler_err_unchanged s m s'). Qed.
 Theorem C11_handler_err_pays_fee_only s t s' : bank_ok s -> 0 <= p_min_stake (pp s) ->
   deliver_tx s t = DHandlerErr s' -> ante s t = Some s'.
 Proof. exact (handler_err_pays_fee_only s t s'). Qed.
+(* the same two statements when the consensus parameters admit ed25519 validator keys only (deliver_tx_cp true), and the
+   refusal itself: a first-time stake under another key type pays its fee and leaves nothing else *)
+Theorem C11_cp_rejected_unchanged r s t s' : deliver_tx_cp r s t = DRejected s' -> s' = s.
+Proof. exact (cp_rejected_unchanged r s t s'). Qed.
+Theorem C11_cp_handler_err_pays_fee_only r s t s' : bank_ok s -> 0 <= p_min_stake (pp s) ->
+  deliver_tx_cp r s t = DHandlerErr s' -> ante s t = Some s'.
+Proof. exact (cp_handler_err_pays_fee_only r s t s'). Qed.
+Theorem C11_cp_refuses_other_key_types s t pk a amt s1 : t_msg t = MStake pk a amt -> ed25519_key pk = false ->
+  ante s t = Some s1 -> get_val s1 a = None ->
+  negb (msg_basic_ok (t_msg t)) || (t_fee t <? 0) || t_sig_empty t = false ->
+  deliver_tx_cp true s t = DHandlerErr s1.
+Proof. exact (cp_refuses_other_key_types s t pk a amt s1). Qed.
+Theorem C11_cp_is_deliver_tx_without_the_restriction s t : deliver_tx_cp false s t = deliver_tx s t.
+Proof. exact (deliver_tx_cp_unrestricted s t). Qed.
 Example C11_ex : match ex_genesis with
   | Some (s, _) => deliver_tx s (ex_tx (MSend A1 A3 10) A2 0) = DRejected s /\
                    match deliver_tx s (ex_tx (MUnjail A1) A1 0) with DHandlerErr s1 => supply s1 = supply s | _ => False end
@@ -22,3 +36,5 @@ Example C11_ex : match ex_genesis with
 Proof. vm_compute. split; reflexivity. Qed.
 Print Assumptions C11_rejected_unchanged.
 Print Assumptions C11_handler_err_pays_fee_only.
+Print Assumptions C11_cp_handler_err_pays_fee_only.
+Print Assumptions C11_cp_refuses_other_key_types.
